@@ -100,6 +100,8 @@ contract('bespokeasm.assembler.line_object.preprocessor_line.create_memzone:Crea
          regex_facts={'CreateMemzoneLine.PATTERN_CREATE_MEMORY_ZONE': [1, 2, 3]},
          may_raise={'SystemExit': 'True', 'ValueError': 'True', 'KeyError': 'True'},
          ensures=['self._name in memzone_manager._zones',
+                  # a name that is already a zone -- declared earlier, predefined, or GLOBAL -- is rejected, whatever its bounds
+                  'forall(lambda s: implies(old(s in memzone_manager._zones), self._name != s), types={"s": "str"})',
                   'mapping(memzone_manager._zones)[self._name]._start == self._start_addr',
                   'mapping(memzone_manager._zones)[self._name]._end == self._end_addr',
                   'inside_global(memzone_manager, mapping(memzone_manager._zones)[self._name])',
@@ -128,3 +130,25 @@ contract('bespokeasm.assembler.line_object.directive_line.page_align:PageAlignLi
                   'implies(not typeis_union_ref(self._page_size), union_is_int(self._page_size)'
                   ' and union_int(self._page_size) == default_page_size)'],
          modifies=[], allocates=True, no_frame_check=True)
+
+
+# the directive factory: a `.memzone` / `.org` line always becomes a zone-selecting line (it closes the local-label region,
+# C06, and switches the zone, C05 -- both in the per-line-object block of the loader, which tests for this class)
+contract('bespokeasm.assembler.line_object.directive_line.factory:DirectiveLine.factory', name='zone-directives',
+         props=['C05', 'C06', 'C02'], blocks_only=True, returns='LineObject?',
+         regex_facts={'DirectiveLine.PATTERN_SET_MEMZONE_DIRECTIVE': [1], 'DirectiveLine.PATTERN_ORG_DIRECTIVE': [1]},
+         params={'line_id': 'LineIdentifier', 'current_memzone': 'MemoryZone?'},
+         locals={'line_match': 'match?', 'cleaned_line_str': 'str'},
+         blocks={
+             'memzone': dict(
+                 where='from:line_match = re.search(DirectiveLine.PATTERN_SET_MEMZONE_DIRECTIVE:2', locals={},
+                 requires=[], may_raise={'SystemExit': 'True'}, ensures=[],
+                 on_return=['result is not None and isa(value_of(result), "SetMemoryZoneLine")',
+                            'value_of(result)._memzone is mapping(memzone_manager._zones)[value_of(value_of(line_match).group(1))]'],
+                 modifies=[], allocates=True),
+             'org': dict(
+                 where='from:line_match = re.search(DirectiveLine.PATTERN_ORG_DIRECTIVE:2', locals={},
+                 requires=[], may_raise={'SystemExit': 'True', 'SyntaxError': 'True'}, ensures=[],
+                 on_return=['result is not None and isa(value_of(result), "AddressOrgLine")',
+                            '(value_of(result)._parsed_memzone_name is None) == (value_of(line_match).group(2) is None)'],
+                 modifies=[], allocates=True)})
